@@ -95,6 +95,27 @@ func NewTransaction(catalog *Catalog) *Transaction {
 	}
 }
 
+// checkpoint returns a function that reverts the transaction to its current
+// state. Catalogs are never modified in place, a write replaces the catalog of
+// the transaction by a modified clone, so keeping the pointer is enough.
+func (t *Transaction) checkpoint() func() {
+	// acquire read lock
+	t.mutex.RLock()
+	defer t.mutex.RUnlock()
+
+	// capture state
+	catalog, dirty := t.catalog, t.dirty
+
+	return func() {
+		// acquire write lock
+		t.mutex.Lock()
+		defer t.mutex.Unlock()
+
+		// restore state
+		t.catalog, t.dirty = catalog, dirty
+	}
+}
+
 // Create will ensure that a namespace for the provided handle exists.
 func (t *Transaction) Create(handle Handle) error {
 	// acquire write lock
